@@ -399,6 +399,7 @@ prop('C18', [
     misc.r_visit,
     models.r_function_views,
     models.r_autoref_siblings,
+    models.r_to_nx,
 ],
     'low/high accessors return the successor of their name; succ() keeps '
     '(level, LOW, HIGH); to_nx labels value=False on LOW and carries the '
@@ -513,7 +514,9 @@ MODEL_TEXT = {
            '`descendants`; the views of `autoref.Function` (var, level, '
            'low, high, negated, size, support, count, copy) on every '
            'reference of two managers; `autoref.BDD.succ` and the other '
-           'shared methods against `dd.bdd.BDD`.',
+           'shared methods against `dd.bdd.BDD`; `to_nx` against a model of '
+           'the graph class (nodes, levels, arcs, the function recovered '
+           'by walking the graph).',
     'C19': ' Models: the finalisers of the four Cython `Function` classes '
            'against a recording library call.',
 }
